@@ -95,6 +95,11 @@ def middles(c, v, mech):
         ('other-cert-expired', [close(0), tick(life_q + 40), {'e': 'keep', 'ci': 0}], {'ccert': 2}),
         ('bad-binder', [close(0), {'e': 'devrms', 'ci': 0}], {}),
         ('bad-binder-nocert', [close(0), {'e': 'devrms', 'ci': 0}], {'ccert': 0}),
+        # another client flavour offers the session: an anonymous client whose hello advertises only FFDHE
+        # groups (the server then does not accept ECDHE suites at all: decline, not illegal_parameter) or
+        # also EC groups (suite acceptable but not offered: illegal_parameter)
+        ('anon-client-ffdh-only', [close(0)], {'kind': 2, 'menu': 5}),
+        ('anon-client-ec', [close(0)], {'kind': 2, 'menu': 0}),
         ('twice', [close(0), conn(v, offer=0), close(1)], {}),
         ('twice-fatal-second', [close(0), conn(v, offer=0), close(1, 1)], {}),
         ('twice-abrupt-server-second', [close(0), conn(v, offer=0), close(1, 2)], {}),
@@ -103,7 +108,7 @@ def middles(c, v, mech):
     return m
 
 
-QUICK_OLD = ('plain', 'keep-expired-nocert', 'ticket-expiry', 'ticket-expiry+1', 'cache-age+1', 'rotate-keep-old', 'rotate-drop-old', 'fatal',
+QUICK_OLD = ('plain', 'anon-client-ffdh-only', 'keep-expired-nocert', 'ticket-expiry', 'ticket-expiry+1', 'cache-age+1', 'rotate-keep-old', 'rotate-drop-old', 'fatal',
              'abrupt-server', 'tamper-body', 'client-drops-ems', 'sni-changed', 'foreign-server')
 
 
@@ -135,6 +140,8 @@ def scenarios(thorough=False):
                 for name, mid, over in middles(c, v, mech):
                     if not thorough and v < 3 and name not in QUICK_OLD:
                         continue
+                    if name.startswith('anon-client') and (auth == 1 or v == 4):
+                        continue      # the client API refuses an SRP session for a non-SRP client; no anon in TLS 1.3
                     tag = 'v%d-%s-%s-%s' % (v, mech, first_variant, name)
                     if name == 'frac-issue-expiry':
                         # issue at a fractional second: the server floors the creation time, the client does not
